@@ -45,10 +45,14 @@ def run(ctx):
             digests = {}
             for (hs, unrel), r in zip(configs, runs):
                 d = r[i]["digest"] if i < len(r) and r[i]["what"] == item["what"] else "missing/" + (r[i]["what"] if i < len(r) else "-")
+                # runs with the same history have the same running numbers: their literals must agree in the printed order too;
+                # across histories the bracketed constraint lists are compared as sets (their order may follow the numbers)
                 digests[f"hashseed={hs}{',after-unrelated' if unrel else ''}"] = d
-            if len(set(digests.values())) > 1:
+            same_history = {v for k, v in digests.items() if "after" not in k}
+            across = {v.split("/")[0] for v in digests.values()}
+            if len(same_history) > 1 or len(across) > 1:
                 ctx.fail(f"{item['what']}: canonical graph differs between runs: {digests}",
-                    {"check": "nondeterminism", "kind": kind, "only_after_unrelated": len({v for k, v in digests.items() if 'after' not in k}) == 1},
+                    {"check": "nondeterminism", "kind": kind, "only_after_unrelated": len(same_history) == 1},
                     {"seed": seed, "nlang": nlang, "what": item["what"], "digests": digests})
         if len(ctx.samples) < 3:
             ctx.samples.append({"case": base[0]["what"], "impl": base[0]["digest"]})
